@@ -324,6 +324,10 @@ class ShavingWatcher:
             fl3 = fl2.copy()
             fl3[top] = flags_stack[top]
             trig3 = flags_stack[top].copy()
+            for p_ in range(len(algorithms)):
+                # the sub-cycle constraint reacts to instantiation only and is not a fixpoint operator (exempted by C08 too)
+                if nx.ALG_NAME.get(int(algorithms[p_])) == "no_sub_cycle":
+                    trig3[p_] = False
             top3 = np.array([top], dtype=stacks_top.dtype)
             saved = interpose.CURRENT
             interpose.CURRENT = None
